@@ -24,6 +24,8 @@ CWColour(v) == v \div 1000
 (* decided value of a boolean key over a set of solutions given as the sets where the key is true *)
 BoolFacts(Sols, keys) == [i \in DOMAIN keys |->
     IF \A S \in Sols : keys[i] \in S THEN 1 ELSE IF \A S \in Sols : keys[i] \notin S THEN 0 ELSE -1]
+MaskBit(mask, j) == (mask \div (2 ^ ((j - 1) % 16))) % 2 = 1          \* (clue vectors longer than 16 reuse the bits)
+IntFacts(Sols, n) == [c \in 1 .. n |-> IF \A g1, g2 \in Sols : g1[c] = g2[c] THEN (CHOOSE g \in Sols : TRUE)[c] ELSE -1]
 Range1(n) == [i \in 1 .. n |-> i]
 Range0(n) == [i \in 1 .. n |-> i - 1]
 
@@ -48,6 +50,7 @@ Alpha ==
       [] Puzzle = "yajilin" -> IF N <= 6 THEN <<YEmpty, YEmpty, YUnknown, 100, 101, 200, 201, 300, 301, 400, 401>>
                                ELSE <<YEmpty, YEmpty, YEmpty, YUnknown, 100, 201, 301, 400>>
       [] Puzzle = "simpleloop" -> <<0, 1>>
+      [] Puzzle = "shakashaka" -> <<ShWhiteCode, ShWhiteCode, ShWhiteCode, ShWhiteCode, -1, 0, 1, 2>>
       [] Puzzle = "geradeweg" -> IF N <= 9 THEN <<0, 0, 0, 1, 2, 3>> ELSE <<0, 0, 1, 2, 3>>
       [] Puzzle = "castle_wall" -> IF N <= 6 THEN <<0, 0, 0, 0, 0, 0, 0, 0, 0, 0, 1100, 1101, 1200, 1201, 1300, 1301, 1400, 1401, 2100, 2201, 2301, 2400, 100, 201, 300, 401>>
                                    ELSE <<0, 0, 0, 0, 0, 0, 1101, 2200, 1300, 2401>>
@@ -134,6 +137,56 @@ SolveCells(p) ==
     LET S == TLCEval({X \in CellSets : CellRule(p, X)}) IN
     [sat |-> S # {}, facts |-> IF S = {} THEN <<>> ELSE BoolFacts(S, Range0(N)), nsol |-> Cardinality(S)]
 
+(* ---- fivecells: holes given as a bit mask; divisions = labelings of the live cells into connected blocks of five ---- *)
+HoleMask == atoi(IOEnv.HOLEMASK)
+Holes == {c \in Cells(BH, BW) : (HoleMask \div (2 ^ c)) % 2 = 1}
+RECURSIVE GrowFive(_, _)
+(* restricted growth strings over the cells in order; hole cells get -1; no block larger than five *)
+GrowFive(n, S) ==
+    IF \A s \in S : Len(s) = n THEN S
+    ELSE GrowFive(n, TLCEval(UNION {
+            LET c == Len(s)
+                live == {i \in DOMAIN s : s[i] >= 0}
+                mx == IF live = {} THEN -1 ELSE CHOOSE v \in {s[i] : i \in live} : \A i \in live : s[i] <= v
+            IN  IF c \in Holes THEN {Append(s, -1)}
+                ELSE {Append(s, b) : b \in {b \in 0 .. mx + 1 : Cardinality({i \in live : s[i] = b}) < 5}}
+          : s \in S}))
+FivesInit == IF Puzzle = "fivecells"
+             THEN SetToSeq({lab \in GrowFive(N, {<<>>}) : FiveDivision(BH, BW, Holes, lab)}) ELSE <<>>
+Fives == pre.fives
+(* edges of the board graph in the order solve_fivecells adds them: for y, for x: the lower neighbour, then the right one *)
+RECURSIVE FiveEdgesFrom(_)
+FiveEdgesFrom(c) ==
+    IF c >= N THEN <<>>
+    ELSE (IF c \notin Holes /\ RowOf(BW, c) < BH - 1 /\ c + BW \notin Holes THEN <<<<c, c + BW>>>> ELSE <<>>) \o
+         (IF c \notin Holes /\ ColOf(BW, c) < BW - 1 /\ c + 1 \notin Holes THEN <<<<c, c + 1>>>> ELSE <<>>) \o FiveEdgesFrom(c + 1)
+FiveEdges == FiveEdgesFrom(0)
+FiveProb(q) ==
+    LET lab == Fives[(q % Len(Fives)) + 1]
+        mask == (q \div Len(Fives)) % 4096
+        corrupt == (q \div (Len(Fives) * 4096)) % 2 = 1
+        live == Cells(BH, BW) \ Holes
+        shown == {c \in live : MaskBit(mask, c + 1)}
+        first == IF shown = {} THEN -1 ELSE CHOOSE c \in shown : \A d \in shown : c <= d
+    IN  [c \in 1 .. N |-> IF c - 1 \in Holes THEN -2
+                          ELSE IF c - 1 \notin shown THEN -1
+                          ELSE IF corrupt /\ c - 1 = first THEN (FiveSides(BH, BW, Holes, lab, c - 1) + 1) % 5
+                          ELSE FiveSides(BH, BW, Holes, lab, c - 1)]
+SolveFive(p) ==
+    LET S == {Fives[k] : k \in {k \in DOMAIN Fives : Fivecells(BH, BW, Holes, p, Fives[k])}}
+        FE == FiveEdges IN
+    [sat |-> S # {},
+     facts |-> IF S = {} THEN <<>>
+               ELSE [e \in DOMAIN FE |-> IF \A lab \in S : lab[FE[e][1] + 1] # lab[FE[e][2] + 1] THEN 1
+                                        ELSE IF \A lab \in S : lab[FE[e][1] + 1] = lab[FE[e][2] + 1] THEN 0 ELSE -1],
+     nsol |-> Cardinality(S)]
+
+(* ---- shakashaka: answers are all grids 0..4 (the rule forces 0 on block cells) ---- *)
+ShakaInit == IF Puzzle = "shakashaka" THEN [1 .. N -> 0 .. 4] ELSE {}
+SolveShaka(p) ==
+    LET S == {a \in pre.shaka : Shakashaka(BH, BW, p, a)} IN
+    [sat |-> S # {}, facts |-> IF S = {} THEN <<>> ELSE IntFacts(S, N), nsol |-> Cardinality(S)]
+
 (* ---- number-grid puzzles: the candidate answers are the valid grids, built row by row ---- *)
 GridPuzzles == {"sudoku", "building", "doppelblock"}
 SZ == IF Puzzle = "sudoku" THEN BH * BH ELSE BH                \* side of the square grid (sudoku: BH = box size n)
@@ -166,7 +219,6 @@ NSolG == CASE Puzzle = "view" -> Len(Views) [] OTHER -> Len(AnsGrids)
 NClues == CASE Puzzle = "sudoku" -> SZ * SZ [] Puzzle = "building" -> 4 * SZ [] Puzzle = "doppelblock" -> 2 * SZ
             [] Puzzle \in {"fillomino", "view"} -> N [] Puzzle = "compass" -> 12 [] OTHER -> 0
 NMask == 2 ^ (IF NClues > 16 THEN 16 ELSE NClues)
-MaskBit(mask, j) == (mask \div (2 ^ ((j - 1) % 16))) % 2 = 1          \* (clue vectors longer than 16 reuse the bits)
 TrueClues(sidx) ==
     CASE Puzzle = "sudoku" -> AnsGrids[sidx]
       [] Puzzle = "building" ->
@@ -208,13 +260,14 @@ CompassProb(q) ==
 Total == IF Puzzle \in RoomPuzzles THEN Len(ConnRgs) * ClueVariants
          ELSE IF Puzzle \in DrawnPuzzles THEN NSolG * NMask * 2
          ELSE IF Puzzle = "compass" THEN NSolG * 3 * 4096 * 2
+         ELSE IF Puzzle = "fivecells" THEN Len(Fives) * 4096 * 2
          ELSE (K ^ NCells) * Extra
 Prob(q) == IF Puzzle = "simpleloop" THEN <<GridOf(q % (K ^ NCells)), <<q \div (K ^ NCells)>>>>
            ELSE IF Puzzle \in RoomPuzzles THEN RoomProb(q)
            ELSE IF Puzzle \in DrawnPuzzles THEN DrawnClues(q)
-           ELSE IF Puzzle = "compass" THEN CompassProb(q) ELSE GridOf(q)
+           ELSE IF Puzzle = "compass" THEN CompassProb(q)
+           ELSE IF Puzzle = "fivecells" THEN FiveProb(q) ELSE GridOf(q)
 
-IntFacts(Sols, n) == [c \in 1 .. n |-> IF \A g1, g2 \in Sols : g1[c] = g2[c] THEN (CHOOSE g \in Sols : TRUE)[c] ELSE -1]
 SolveGrid(p) ==
     LET all == {AnsGrids[k] : k \in DOMAIN AnsGrids}
         S == CASE Puzzle = "sudoku" -> {g \in all : Givens(p, g)}
@@ -238,7 +291,8 @@ Picked == LET T == Total IN
           ELSE {((Seed % 1000) * 7919 + j * ((T \div Count) + 1) + ((j * j) % 97)) % T : j \in 1 .. Count}
 
 Init == /\ pre = [loopsF |-> TLCEval(LoopsFInit), loopsC |-> TLCEval(LoopsCInit), connRgs |-> TLCEval(ConnRgsInit),
-                  cellSets |-> TLCEval(CellSetsInit), grids |-> TLCEval(GridsInit), views |-> TLCEval(ViewsInit)]
+                  cellSets |-> TLCEval(CellSetsInit), grids |-> TLCEval(GridsInit), views |-> TLCEval(ViewsInit),
+                  fives |-> TLCEval(FivesInit), shaka |-> TLCEval(ShakaInit)]
         /\ shard = -1 /\ pidx = -1
 (* one initial state (so that `pre` is computed once); it fans out into 64 shards, each of which fans out into its problems *)
 Next == \/ (shard = -1 /\ shard' \in 0 .. 63 /\ UNCHANGED <<pidx, pre>>)
@@ -246,6 +300,8 @@ Next == \/ (shard = -1 /\ shard' \in 0 .. 63 /\ UNCHANGED <<pidx, pre>>)
 SolveAny(p) == IF Puzzle \in CellPuzzles THEN SolveCells(p)
                ELSE IF Puzzle \in GridPuzzles \cup {"fillomino"} THEN SolveGrid(p)
                ELSE IF Puzzle = "view" THEN SolveView(p)
-               ELSE IF Puzzle = "compass" THEN SolveCompass(p) ELSE Solve(p)
+               ELSE IF Puzzle = "compass" THEN SolveCompass(p)
+               ELSE IF Puzzle = "fivecells" THEN SolveFive(p)
+               ELSE IF Puzzle = "shakashaka" THEN SolveShaka(p) ELSE Solve(p)
 Export == pidx = -1 \/ PrintT(ToJson([id |-> pidx, puzzle |-> Puzzle, h |-> BH, w |-> BW, problem |-> Prob(pidx)] @@ SolveAny(Prob(pidx))))
 =============================================================================
